@@ -787,7 +787,7 @@ class Container:
                 raise ValueError(f"Not enough mixture left in source container ({source_container.name}). " +
                                  f"Only {Unit.convert_from_storage(source_container.volume, 'mL')} mL available, " +
                                  f"{Unit.convert_from_storage(volume_to_transfer, 'mL')} mL needed.")
-            ratio = volume_to_transfer / source_container.volume
+            ratio = volume_to_transfer / source_container.volume if source_container.volume else 0
 
         elif unit == 'g':
             mass_to_transfer = round(quantity_to_transfer, config.internal_precision)
@@ -798,7 +798,7 @@ class Container:
             if mass_to_transfer > round(total_mass, config.internal_precision):
                 raise ValueError(f"Not enough mixture left in source container ({source_container.name}). " +
                                  f"Only {total_mass} g available, {mass_to_transfer} g needed.")
-            ratio = mass_to_transfer / total_mass
+            ratio = mass_to_transfer / total_mass if total_mass else 0
         elif unit == 'mol':
             moles_to_transfer = Unit.convert_to_storage(quantity_to_transfer, 'mol')
             total_moles = sum(amount for substance, amount in source_container.contents.items()
@@ -807,16 +807,16 @@ class Container:
                 raise ValueError(f"Not enough mixture left in source container ({source_container.name}). " +
                                  f"Only {Unit.convert_from_storage(total_moles, 'mol')} mol available, " +
                                  f"{quantity_to_transfer} mol needed.")
-            ratio = moles_to_transfer / total_moles
+            ratio = moles_to_transfer / total_moles if total_moles else 0
         elif unit == 'U':
             total_activity = sum(amount for substance, amount in source_container.contents.items()
                                  if substance.is_enzyme())
-            if total_activity == 0:
+            if total_activity == 0 and quantity_to_transfer > 0:
                 raise ValueError("There are no enzymes in the source container.")
             if quantity_to_transfer > round(total_activity, config.internal_precision):
                 raise ValueError(f"Not enough mixture left in source container ({source_container.name}). " +
                                  f"Only {total_activity} U available, {quantity_to_transfer} U needed.")
-            ratio = quantity_to_transfer / total_activity
+            ratio = quantity_to_transfer / total_activity if total_activity else 0
         else:
             raise ValueError("Invalid quantity unit.")
 
